@@ -42,7 +42,8 @@ def scenario(rng):
     for k in range(20):
         if rng.random() < 0.2:
             holds[k] = rng.randint(0, 10)
-    return {"hp": list(hp), "actions": acts, "corrupt": corrupt, "holds": holds, "rel": rng.random() < 0.5}
+    inst = rng.random() < 0.25            # zero latency: replies handled before write() returns
+    return {"hp": list(hp), "actions": acts, "corrupt": corrupt, "holds": {} if inst else holds, "rel": rng.random() < 0.5, "instant": inst}
 
 
 # finding F19: relative job, one corrupted line, pause after the resend -> the restore move of resume() names a position one
@@ -58,7 +59,7 @@ F19_WITNESSES = [
 def _run(sc):
     rel = bool(sc.get("rel"))
     t = run_life([job(1, sc["hp"], rel), job(2, (), rel)], sc["actions"], corrupt=sc["corrupt"],
-                 holds={int(k): v for k, v in sc["holds"].items()}, preamble=("G91",) if rel else ())
+                 holds={int(k): v for k, v in sc["holds"].items()}, preamble=("G91",) if rel else (), instant=bool(sc.get("instant")))
     t["meta"]["hp"] = sc["hp"]
     t["meta"]["rel"] = rel
     return t
